@@ -589,7 +589,13 @@ def run_property(spec, argv=None):
         'violations': len(violations) + (1 if nofail else 0),
     }
     os.makedirs(os.path.join(ROOT, 'evidence'), exist_ok=True)
-    with open(os.path.join(ROOT, 'evidence', pid + '.json'), 'w') as f:
+    # development runs (--skip-build: no proof obligations checked) and runs against another tree
+    # (SYMPDE_REPO) never overwrite the committed evidence of /repo
+    evname = pid + '.json'
+    if args.skip_build or os.environ.get('SYMPDE_REPO'):
+        os.makedirs(os.path.join(ROOT, 'evidence', '.dev'), exist_ok=True)
+        evname = os.path.join('.dev', pid + '.json')
+    with open(os.path.join(ROOT, 'evidence', evname), 'w') as f:
         json.dump(ev, f, indent=1, sort_keys=True)
     for k, n, d in broken:
         print('BROKEN %s: %s' % (k, n))
